@@ -20,6 +20,16 @@ Local Open Scope Z_scope.
 Definition C09_full (compile : list Z -> outcome (list Z)) : Prop :=
   forall src, (exists bin, compile src = Ok bin) \/ (exists d, compile src = Reject d).
 
+(* What this theorem is: a TOTALITY / FUEL theorem.  No function of XFront.v ever produces the `UB` constructor of
+   `outcome` -- the UB verdict is unreachable in the model by construction -- so "no UB" here adds nothing beyond "the
+   model has no UB branch"; the content is that lexing and parsing never run out of the fuel the model gives them and
+   always end in a tree or a located diagnostic.
+   TRUSTED BASE, not proved: the real lexer calls std::isspace / isalpha / isdigit / isalnum on a plain `char`
+   (xcmp.hpp, Lexer::readChar users, ~lines 269, 322, 342, 346).  For source bytes 0x80..0xFE the argument is a negative
+   int other than EOF, which is UNDEFINED in ISO C (7.4p1).  The model gives these calls glibc's behaviour (its ctype
+   tables are indexed from -128; in the C locale such bytes are neither space, alpha nor digit), i.e. XFront.is_space /
+   is_alpha / is_digit on the byte value.  On another C library the real lexer could misbehave on such bytes where the
+   model says "diagnostic"; tools/c09.py ties the model to the real code only on the glibc of this machine. *)
 Theorem C09_total_partial :
   forall src : list Z, (exists p, front src = Ok p) \/ (exists d, front src = Reject d).
 Proof. exact front_total. Qed.
